@@ -9,7 +9,7 @@ TARGETS = ["NetqasmVerif.Props.C04"]
 M = "NetqasmVerif.Props.C04"
 THEOREMS = [(M, "NQ.C04." + n) for n in [
     "fault_atomic", "fault_atomic_inv", "fault_atomic_reachable", "fault_atomic_interleaved",
-    "fault_atomic_strict", "fault_names_line", "fault_lifts",
+    "fault_atomic_strict", "fault_stops", "fault_names_line", "fault_lifts",
     "store_undefined_faults", "load_undefined_faults", "ret_undefined_faults",
     "addm_bad_modulus_faults", "subm_bad_modulus_faults", "double_alloc_faults",
     "free_unallocated_faults", "store_past_end_faults", "load_past_end_faults", "undef_past_end_faults",
@@ -47,6 +47,8 @@ TRUSTED = [
 ASSUMPTIONS = [
     "register operands are those of binary-encodable instructions (4 banks x 16 indices); array-entry indices are registers",
     "the hardware-mode flag is constant during the life of an executor",
+    "several executors in one process share nothing in the model (independent copies); that is what the "
+    "multi-executor stream checks of the real class",
     "arrays longer than 400 entries are not exercised on the real code (allocation guard); the model is unbounded",
     "quantum instructions are a recorded trace with scripted measurement outcomes (base executor hooks)",
 ]
@@ -95,6 +97,18 @@ def _directed():
             + fr(Q2, 2) + fr(Q2, 3) + fr(Q0, 1) + fr(Q1, 0)], n=4),
         sc([al(Q0, -1) + al(Q1, 0) + fr(Q1, 0) + al(Q2, 1) + al(Q1, 0) + fr(Q0, 2) + fr(Q2, 1)], n=3),
     ]
+    # recording `_handle_command_exception` hook (simulators log and go on): execution must still stop
+    # at the faulting instruction, with exactly one report
+    out += [dict(sc([[["set"] + R0 + [0], ["set"] + R1 + [5], ["addm"] + R2 + R1 + R1 + R0, ["set"] + R3 + [9]]]),
+                 lenient=True),
+            dict(sc([al(Q0, 0) + al(Q0, 0) + fr(Q0, 0)], n=2), lenient=True)]
+    # two executors in one process, alice suspended inside her subroutine 0 while bob runs his
+    prog = [["set"] + R0 + [0], ["set"] + R1 + [1], ["add"] + R0 + R0 + R1, ["set"] + Q0 + [0], ["qalloc"] + Q0,
+            ["qfree"] + Q0, ["ret_reg"] + R0]
+    ticks = [{"k": "tick", "ex": ex, "i": 0} for ex in [0] * 5 + [1] * 2 + [0] * 4 + [1] * 6]
+    out.append({"hw": False, "nex": 2, "apps": [0], "addrs": [0], "ops": [
+        {"k": "init", "ex": 0, "a": 0, "n": 1}, {"k": "init", "ex": 1, "a": 0, "n": 1},
+        {"k": "spawn", "ex": 0, "a": 0, "p": list(prog)}, {"k": "spawn", "ex": 1, "a": 0, "p": list(prog)}] + ticks})
     return out
 
 
@@ -108,7 +122,7 @@ def _f25_rule(H, driver, sc, failure):
         H.run_real(c, [ob])
         return any(f["address"] == ad for f in ob.failures)
     small = H.shrink(sc, fails, budget=150)
-    feature = [(oi, j) for oi, o in enumerate(small["ops"]) if o["k"] == "sub"
+    feature = [(oi, j) for oi, o in enumerate(small["ops"]) if o["k"] in ("sub", "spawn")
                for j, ins in enumerate(o["p"]) if (ins[0] == "store" and ins[3] == ad) or (ins[0] == "undef" and ins[1] == ad)]
     if not feature:
         return small, False
@@ -124,11 +138,14 @@ def run(ctx):
     res.rule = ("random subroutines over the core set (unstructured targets, all banks, arrays 0..40, undefined "
                 "entries, negative/32-bit-boundary values), 1-4 subroutines per application, step bound 40/120; "
                 "every 3rd scenario in hardware mode, every 7th through the QNodeController message handlers, every "
+                "6th on an executor subclass whose _handle_command_exception hook records and returns (exactly one "
+                "report, pc at the faulting line, subroutine ends), plus histories with 2-3 Executor instances in one "
+                "process whose subroutines are advanced interleaved across executors; every "
                 "5th an allocation pattern (several qubit registers, non-LIFO frees leaving holes, re-allocation "
                 "across subroutines); "
                 "a scenario is non-trivial when at least 3 instructions were executed; distinct by scenario JSON")
     rng = ctx.rng
-    n_random = 150000 if ctx.thorough else 9000
+    n_random = 90000 if ctx.thorough else 7500
     drv = ctx.driver
 
     def differs(c):
@@ -149,11 +166,24 @@ def run(ctx):
                     k = pcv if pcv >= 0 else pcv + len(o["p"])
                     if 0 <= k < len(o["p"]):
                         res.count("exec:" + o["p"][k][0].split(":")[0])
-        res.count("mode:" + ("hw" if sc["hw"] else "sim") + ("+msg" if sc.get("msg") else ""))
+            elif o["k"] in ("tick",):
+                if r.get("o") in ("live", "halted", "fault"):
+                    nsteps += 1
+                res.count("tick:" + str(r.get("kind") or r.get("o")))
+        for o, rs in zip(sc["ops"], real):
+            rr = rs["r"].get("out", rs["r"])
+            if rr.get("o") == "fault-repeated":
+                res.failures.append({"what": "execution does not stop at the faulting instruction: the fault was "
+                                             "reported %d times to a recording _handle_command_exception hook" % rr["n"],
+                                     "kf": None, "input": {"scenario": sc, "readable": H.describe(sc),
+                                                           "reported": [rr["cls"], rr["line"]]}})
+                break
+        res.count("mode:" + ("hw" if sc["hw"] else "sim") + ("+msg" if sc.get("msg") else "")
+                  + ("+recording-hook" if sc.get("lenient") else "") + ("+%dexec" % sc["nex"] if sc.get("nex") else ""))
         if nsteps >= 3:
             res.nontrivial.add(json.dumps(sc, sort_keys=True))
         if len(res.samples) < 4 and nsteps >= 8 and tag == "random":
-            res.samples.append({"scenario": H.describe(sc), "model_final": model[len(real) - 1]["r"] if real else None})
+            res.samples.append({"scenario": H.describe(sc), "model_final": model[-1]["r"] if model else None})
         if d:
             small = H.shrink(sc, differs, budget=300)
             _, _, d2 = H.compare(small, drv)
@@ -179,7 +209,15 @@ def run(ctx):
         sc = g.alloc_scenario() if k % 5 == 4 else g.c04_scenario()
         if msg:
             sc["msg"] = True
+        elif k % 6 == 1:
+            sc["lenient"] = True   # executor subclass whose fault hook records and returns
         check(sc, "random")
+        if len([f for f in res.failures if f["kf"] is None]) >= stop_after_failures:
+            break
+    # several Executor instances in one process, subroutines advanced interleaved across them
+    n_multi = 5000 if ctx.thorough else 400
+    for k in range(n_multi):
+        check(H.multi_scenario(rng, rng.choice([15, 30, 60]), "c04"), "multi-executor")
         if len([f for f in res.failures if f["kf"] is None]) >= stop_after_failures:
             break
     return res
